@@ -146,7 +146,8 @@ def make_frame(gen, rnd, w, combo, obs):
             if ac is not None:
                 ac["status"] = st
                 if st["error"]:
-                    inst["errors"][a] = rnd.choice(["ER: FFFE", "E7", "Fault 12"])
+                    # (None: the console has no text for this code - the empty answer)
+                    inst["errors"][a] = rnd.choice(["ER: FFFE", "E7", "Fault 12", None])
                     obs["error_episodes"] = obs.get("error_episodes", 0) + 1
                 else:
                     inst["errors"].pop(a, None)
